@@ -80,7 +80,7 @@ Definition denoted_key (base u : string) : option string :=
 (* sub-properties a known-finding class accounts for *)
 Definition explains (k : N) : list N :=
   match k with
-  | 1 => [1; 2] | 2 => [3] | 3 => [1; 2; 3] | 4 => [1; 2] | 5 => [1; 2; 3] | 6 => [4] | 7 => [4] | 8 => [4]
+  | 1 => [1; 2] | 2 => [3] | 3 => [1; 2; 3] | 4 => [1; 2] | 6 => [4] | 7 => [4] | 8 => [4]
   | _ => []
   end.
 
@@ -102,7 +102,7 @@ Definition run_with (v : variant) (c : case) : verdict :=
         flag 1 (forallb (fun n => oeqb (file_uri (note_path base (n_comps n))) (o_uri n)) notes) ++
         (* 2: key set of the loader *)
         flag 2 (match o_loaded with Some l => set_eqb seqb l mkeys && nodup_b l | None => false end) ++
-        (* 3: key of each file (None only for a file that lost a key collision) *)
+        (* 3: key of each file (None only for a file that lost a key collision: the same components twice) *)
         flag 3 (forallb (fun n => match o_disk n with
                                   | Some k => seqb k (disk_key (n_comps n)) && loaded (n_comps n)
                                   | None => negb (loaded (n_comps n)) ||
@@ -163,7 +163,7 @@ Definition run_with (v : variant) (c : case) : verdict :=
         flag 2 (negb (existsb (fun n => join_reinterprets (n_comps n)) notes)) ++
         flag 3 (negb (base_unsafe base)) ++
         flag 4 (negb (base_trailing_slash base)) ++
-        flag 5 (negb (existsb (fun n => stem_md (n_comps n)) notes)) ++
+        (* (class 5, a stem ending in `.md`, is repaired: F-C14-5) *)
         flag 6 (negb (existsb (fun e => prefix_repeats S (fst e)) o_extra)) ++
         flag 7 (negb (existsb (fun e => uri_has_escape (fst e)) o_extra)) ++
         flag 8 (negb (existsb (fun e => uri_has_query (fst e)) o_extra)) in
